@@ -62,3 +62,11 @@ func CheckInRange(prop *tableaupb.FieldProp, fd protoreflect.FieldDescriptor, va
 func CheckMapKeySequence(prop *tableaupb.FieldProp, kind protoreflect.Kind, mapkey protoreflect.MapKey, prefMap protoreflect.Map) bool {
 	return fieldprop.CheckMapKeySequence(prop, kind, mapkey, prefMap)
 }
+
+// TypeInfos re-exports the protogen type registry for lock-discipline replays.
+type TypeInfos = xproto.TypeInfos
+
+// TypeInfo re-exports xproto.TypeInfo.
+type TypeInfo = xproto.TypeInfo
+
+func NewTypeInfos(protoPackage string) *TypeInfos { return xproto.NewTypeInfos(protoPackage) }
